@@ -120,6 +120,9 @@ structure DState where
   viaTemp  : List Nat := []                  -- referenced through VolumeManager.StoreSector (no fsync before the reference)
   parked   : Option (Nat × Nat × Nat) := none -- a ResizeVolume call stopped after it read the size: volume, target, size read
   idx      : List (Nat × List Nat) := []      -- volumes whose rows were partly deleted: volume_index of each remaining row, by position
+  lastFailed : Option (Nat × Bool) := none   -- the previous line was a failed store of this root; was the root stored before?
+  failedStores : Nat := 0
+  readBacks : Nat := 0
   -- statistics
   hists : Nat := 0
   ops : Nat := 0
@@ -362,12 +365,12 @@ def situation (d : DState) (r : Nat) : String :=
 
 def mapBuf (d : DState) (k : Nat) : Option Nat := (d.bufMap.find? (·.1 == k)).map (·.2)
 
-def step (d : DState) (l : Line) : DState × List Verdict :=
+def stepCore (d : DState) (l : Line) : DState × List Verdict :=
   if l.op == "reset" then
     let cache := (getNat l.args "cache").getD 0
     let mode := (getStr l.args "mode").getD "meta"
     ({ d with m := init cache, mode := mode, dead := false, iOcc := [], iR1 := [], iR2 := [], iTmp := [], iLost := 0,
-              bufMap := [], acked := [], exempt := [], taint := [], lastEv := [], viaTemp := [], parked := none, idx := [], hists := d.hists + 1 }, [])
+              bufMap := [], acked := [], exempt := [], taint := [], lastEv := [], viaTemp := [], parked := none, idx := [], lastFailed := none, hists := d.hists + 1 }, [])
   else if d.dead then (d, [])
   else
   let a := l.args
@@ -505,12 +508,19 @@ def step (d : DState) (l : Line) : DState × List Verdict :=
       | none => (d, [.badline "unknown buffer"])
       | some b =>
         let otherPending := d.m.pending.any (fun p => p.r == r)
-        let (s2, r1) := reserve d.m w r b loc
+        -- injected failure: `db` = StoreSector fails before it touched the database (nothing happens);
+        -- `cb` / `data` = the slot is committed, the callback fails (before / at the data write), the slot is rolled back
+        let fault := (getStr a "fault").getD ""
+        let wasStored := located pre.vols r
+        let (s2, r1) := if fault == "db" then (d.m, Res.error "injected database fault") else reserve d.m w r b loc
         let paused := l.op == "reserve"
         let (s3, r2) := match r1 with
-          | .placed _ _ => if paused then (s2, r1) else let (s3, rf) := finishD d s2 w true; (s3, match rf with | .ok => r1 | x => x)
+          | .placed _ _ => if paused then (s2, r1) else let (s3, rf) := finishD d s2 w (fault == ""); (s3, match rf with | .ok => r1 | x => x)
           | _ => (s2, r1)
         let d := { d with m := s3, stores := d.stores + 1 }
+        let d := match r2 with
+          | .error _ => { d with lastFailed := some (r, wasStored), failedStores := d.failedStores + 1, rollbacks := d.rollbacks + (if fault == "db" then 0 else 1) }
+          | _ => { d with lastFailed := none }
         let d := match r2 with
           | .placed _ _ => { d with placed := d.placed + 1 } | .exist => { d with exists_ := d.exists_ + 1 }
           | .notEnoughStorage => { d with nospace := d.nospace + 1 } | _ => d
@@ -542,7 +552,11 @@ def step (d : DState) (l : Line) : DState × List Verdict :=
       let p := findPending w d.m.pending
       let (d, r) := stepM d (.finish w (ok == 1))
       let d := match p, r with
-        | some p, .ok => noteEv (ack d p.r) [p.r] "write"
+        | some p, .ok => noteEv (ack { d with lastFailed := none } p.r) [p.r] "write"
+        | some p, .error _ =>
+          -- the root was not stored before its reserve unless a second writer was told `exist` meanwhile (two_writers)
+          { d with rollbacks := d.rollbacks + 1, failedStores := d.failedStores + 1,
+                   lastFailed := if (getA p.r d.taint).isSome then none else some (p.r, false) }
         | _, .error _ => { d with rollbacks := d.rollbacks + 1 }
         | _, _ => d
       conclude d l (resVerdict "meta/res" r res) (lostMonitor d false)
@@ -688,6 +702,26 @@ def step (d : DState) (l : Line) : DState × List Verdict :=
       let d := { d with reads := d.reads + 1, readsRef := d.readsRef + b01 refd }
       let intact := res == "ok" && c == toString r
       let (dm, rm) := stepM d (.read r)
+      -- C09: the previous line was a failed store of this root; it must have had no visible effect
+      let st := (getNat o "st").getD 1
+      let modelIntact := match rm with | .buf bm => dm.m.heap[bm]? == some (.dataOf r) | _ => false
+      -- a root that sat in the cache before its store failed (e.g. pruned meanwhile) is still served from there: the
+      -- failed store changed nothing; the model's cache, which a failed store leaves alone, says which case this is
+      let modelHit := match rm with | .buf _ => true | _ => false
+      let c09 : List Verdict := match d.lastFailed with
+        | some (fr, wasStored) =>
+          if fr != r then []
+          else if !wasStored && st == 0 && res == "ok" && !modelHit then
+            [mono (if d.m.cacheSize > 0 then "c09/failed_write_noop/cache" else "c09/failed_write_noop/read")
+              s!"root={r}: its store failed and the database has no such sector, but ReadSector returns res={res},content={c}"]
+          else if wasStored && modelIntact && !intact then
+            [mono "c09/failed_write_noop/old_data" s!"root={r}: the failed re-store of a stored sector changed what ReadSector returns: res={res},content={c}"]
+          else []
+        | none => []
+      let dm := { dm with lastFailed := none, readBacks := dm.readBacks + (if d.lastFailed.isSome then 1 else 0) }
+      if !c09.isEmpty then
+        ({ dm with dead := true }, c09 ++ (if refd && !intact then [mono s!"read_intact/{situation d r}" s!"root={r},res={res},content={c}"] else []))
+      else
       if refd && !intact then
         ({ dm with dead := true }, [mono s!"read_intact/{situation d r}" s!"root={r},res={res},content={c}"])
       else
@@ -847,7 +881,13 @@ def step (d : DState) (l : Line) : DState × List Verdict :=
     conclude d l (resVerdict "data/restart" r res) (lostMonitor d false)
   | _ => (d, [.badline "unknown op"])
 
+/-- one line; a failed store is remembered only until the next line (the read-back the harness makes at once) -/
+def step (d : DState) (l : Line) : DState × List Verdict :=
+  let (d', vs) := stepCore d l
+  if ["write", "wbuf", "storetemp", "finish", "read", "reset"].contains l.op then (d', vs)
+  else ({ d' with lastFailed := none }, vs)
+
 def stats (d : DState) : String :=
-  s!"hists={d.hists} ops={d.ops} stores={d.stores} placed={d.placed} exist={d.exists_} nospace={d.nospace} rollbacks={d.rollbacks} migrations={d.migrations} moved={d.moved} reclaims={d.reclaims} reads={d.reads} reads_referenced={d.readsRef} crashes={d.crashes} lost_ops={d.lostOps} healed={d.healed}"
+  s!"hists={d.hists} ops={d.ops} stores={d.stores} placed={d.placed} exist={d.exists_} nospace={d.nospace} rollbacks={d.rollbacks} migrations={d.migrations} moved={d.moved} reclaims={d.reclaims} reads={d.reads} reads_referenced={d.readsRef} crashes={d.crashes} lost_ops={d.lostOps} healed={d.healed} failed_stores={d.failedStores} read_backs={d.readBacks}"
 
 end Hostd.Drive.Volumes
